@@ -96,6 +96,7 @@ PANIC_PREFIXES = ('core::panicking::', 'std::panicking::', 'core::option::unwrap
 class Interp:
     def __init__(self, facts, inline_bitflags=True):
         self.facts = facts
+        Interp.CURRENT = self
         self.fn = {}
         for f in facts['fns']:
             self.fn[f['name']] = f
@@ -267,7 +268,7 @@ class Interp:
                 inner = Struct('addr::PhysAddr', [BV(64, [0] * sb + [lit(name, i) for i in range(sb, 52)] + [0] * 12)])
             else:
                 inner = Struct('addr::VirtAddr', [BV(64, [0] * sb + [lit(name, i) for i in range(sb, 48)] + [lit(name, 47)] * 16)])
-            return Struct(n, [inner, UNIT])
+            return self.newtype(n, inner)
         if n.endswith('page_table::PageTableIndex'):
             return Struct(n, [BV(16, [lit(name, i) for i in range(9)] + [0] * 7)])
         if n.endswith('page_table::PageOffset'):
@@ -286,6 +287,16 @@ class Interp:
             w = lay['size'] * 8
             return self.wrap_scalar(t, BV(w, [lit(name, i) if (allv >> i) & 1 else 0 for i in range(w)]))
         return None
+
+    def newtype(self, name, val):
+        """a struct with one data field and zero-sized markers (Page, PhysFrame, PortGeneric, ...): `val` goes where the crate declares
+        the data field - the order of private fields is the crate's business"""
+        for a in self.facts.get('adts', []):
+            if a['name'] == name:
+                data = [f for f in a['fields'] if not f['marker']]
+                if len(data) == 1:
+                    return Struct(name, [UNIT if f['marker'] else val for f in a['fields']])
+        return Struct(name, [val, UNIT])
 
     def is_flags_type(self, n):
         if not hasattr(self, '_flagtypes'):
@@ -1552,12 +1563,15 @@ class Interp:
         f = self.fn.get(name)
         if f is None:
             raise Unsupported('no such function ' + name)
+        if self.depth == 0:
+            Interp.ENTRIES.add(name)
         outs = self.run_fn(f, args, st if st is not None else State(), sub, consts, keep_locals=keep_locals)
         if keep_locals:
             for o in outs:
                 o.frame = self.last_top_frame
         return outs
 
+    ENTRIES = set()      # functions a rule started an interpretation at (audit: which anchors are private names)
     TOUCHED = set()      # names of every function body entered by any interpreter of this process (coverage accounting)
 
     def run_fn(self, f, args, st, sub=None, consts=None, keep_locals=False):
